@@ -276,17 +276,17 @@ fn run_sender_blocking(s: &dyn IoShape, cap: CapSpec, seq: &[Value], kind: Kind,
 fn judge_sender(cx: &mut Ctx, mode: &str, cap: CapSpec, seq: &[Value], run: &SendRun, trace: &[(u16, u16)], faulty: bool) {
     let d = cx.d.clone();
     let blen = buf_len(cap, &d);
-    let replay = json!({"engine": "io_explore", "policy": CHUNK_POLICY.with(|c| c.get()), "mode": mode, "side": "sender", "shape": cx.s.id(), "cap": format!("{:?}", cap), "seq": seq.iter().map(|v| format!("{:?}", v)).collect::<Vec<_>>(), "choices": choices_json(trace)});
+    let replay_fn = || json!({"engine": "io_explore", "policy": CHUNK_POLICY.with(|c| c.get()), "mode": mode, "side": "sender", "shape": cx.s.id(), "cap": format!("{:?}", cap), "seq": seq.iter().map(|v| format!("{:?}", v)).collect::<Vec<_>>(), "choices": choices_json(trace)});
     if let Some(p) = &run.panic {
         if p.contains(HORIZON_MSG) {
-            cx.violate(format!("{}/sender/hang", mode), format!("a send did not return within the call horizon; faults {:?}; seq {:?} cap {:?}", run.injected, seq, cap), replay);
+            cx.violate(format!("{}/sender/hang", mode), format!("a send did not return within the call horizon; faults {:?}; seq {:?} cap {:?}", run.injected, seq, cap), replay_fn());
         } else if !(faulty && run.outs.iter().any(|o| !matches!(o.1, SendOut::Ok))) {
-            cx.violate(format!("{}/sender/panic/{}", mode, panic_site(p)), format!("panic: {} (seq {:?} cap {:?} faults {:?})", p, seq, cap, run.injected), replay);
+            cx.violate(format!("{}/sender/panic/{}", mode, panic_site(p)), format!("panic: {} (seq {:?} cap {:?} faults {:?})", p, seq, cap, run.injected), replay_fn());
         } else {
             // panic after a reported error: allowed only for a poisoned sender (partial write); judged below by the sink shape
             let poisoned = run.outs.iter().any(|o| !matches!(o.1, SendOut::Ok)) && p.contains("poisoned");
             if !poisoned {
-                cx.violate(format!("{}/sender/panic_after_error/{}", mode, panic_site(p)), format!("panic after a reported error: {} (faults {:?})", p, run.injected), replay);
+                cx.violate(format!("{}/sender/panic_after_error/{}", mode, panic_site(p)), format!("panic after a reported error: {} (faults {:?})", p, run.injected), replay_fn());
             }
         }
         return;
@@ -297,27 +297,27 @@ fn judge_sender(cx: &mut Ctx, mode: &str, cap: CapSpec, seq: &[Value], run: &Sen
         let img = encode(&d, &seq[*i], blen, 0).unwrap();
         let wrote = &run.sink[prev..*len];
         if partial_seen && !wrote.is_empty() {
-            cx.violate(format!("{}/sender/bytes_after_partial", mode), format!("bytes reached the sink after a partial message (faults {:?})", run.injected), replay.clone());
+            cx.violate(format!("{}/sender/bytes_after_partial", mode), format!("bytes reached the sink after a partial message (faults {:?})", run.injected), replay_fn());
             return;
         }
         if wrote.len() > img.extent || !masked_eq(wrote, &img.bytes[..wrote.len()], &img.mask[..wrote.len()]) {
-            cx.violate(format!("{}/sender/sink_bytes", mode), format!("attempt for message {} {:?} put {} into the sink, image is {} (faults {:?})", i, seq[*i], hex(wrote), hex(&img.bytes[..img.extent]), run.injected), replay.clone());
+            cx.violate(format!("{}/sender/sink_bytes", mode), format!("attempt for message {} {:?} put {} into the sink, image is {} (faults {:?})", i, seq[*i], hex(wrote), hex(&img.bytes[..img.extent]), run.injected), replay_fn());
             return;
         }
         match out {
             SendOut::Ok => {
                 if wrote.len() != img.extent {
-                    cx.violate(format!("{}/sender/ok_but_incomplete", mode), format!("send of message {} returned Ok with {} of {} bytes in the sink (faults {:?})", i, wrote.len(), img.extent, run.injected), replay.clone());
+                    cx.violate(format!("{}/sender/ok_but_incomplete", mode), format!("send of message {} returned Ok with {} of {} bytes in the sink (faults {:?})", i, wrote.len(), img.extent, run.injected), replay_fn());
                     return;
                 }
             }
             SendOut::Emplace(e) => {
-                cx.violate(format!("{}/sender/emplace_refused", mode), format!("new_in_place refused message {:?}: {}", seq[*i], e), replay.clone());
+                cx.violate(format!("{}/sender/emplace_refused", mode), format!("new_in_place refused message {:?}: {}", seq[*i], e), replay_fn());
                 return;
             }
             SendOut::Io(k) => {
                 if !faulty {
-                    cx.violate(format!("{}/sender/spurious_error", mode), format!("send failed with {:?} on a healthy pipe", k), replay.clone());
+                    cx.violate(format!("{}/sender/spurious_error", mode), format!("send failed with {:?} on a healthy pipe", k), replay_fn());
                     return;
                 }
                 if !wrote.is_empty() && wrote.len() < img.extent {
@@ -330,12 +330,12 @@ fn judge_sender(cx: &mut Ctx, mode: &str, cap: CapSpec, seq: &[Value], run: &Sen
     if !faulty {
         let oks = run.outs.iter().filter(|o| o.1 == SendOut::Ok).count();
         if oks != seq.len() {
-            cx.violate(format!("{}/sender/missing", mode), format!("{} of {} messages sent", oks, seq.len()), replay);
+            cx.violate(format!("{}/sender/missing", mode), format!("{} of {} messages sent", oks, seq.len()), replay_fn());
         }
     } else if run.injected.is_empty() {
         let oks = run.outs.iter().filter(|o| o.1 == SendOut::Ok).count();
         if oks != seq.len() {
-            cx.violate(format!("{}/sender/missing", mode), format!("no fault injected but {} of {} messages sent", oks, seq.len()), replay);
+            cx.violate(format!("{}/sender/missing", mode), format!("no fault injected but {} of {} messages sent", oks, seq.len()), replay_fn());
         }
     }
 }
@@ -412,10 +412,10 @@ fn run_receiver_blocking(s: &dyn IoShape, cap: CapSpec, stream: &[u8], faults: &
 
 /// Healthy-pipe oracle: exactly the sent messages in order, then Closed.
 fn judge_receiver_exact(cx: &mut Ctx, mode: &str, cap: CapSpec, seq: &[Value], stream: &[u8], sizes: &[usize], run: &RecvRun, trace: &[(u16, u16)]) {
-    let replay = json!({"engine": "io_explore", "policy": CHUNK_POLICY.with(|c| c.get()), "retain": retain_on(), "mode": mode, "side": "receiver", "shape": cx.s.id(), "cap": format!("{:?}", cap), "seq": seq.iter().map(|v| format!("{:?}", v)).collect::<Vec<_>>(), "stream": hex(stream), "choices": choices_json(trace)});
+    let replay_fn = || json!({"engine": "io_explore", "policy": CHUNK_POLICY.with(|c| c.get()), "retain": retain_on(), "mode": mode, "side": "receiver", "shape": cx.s.id(), "cap": format!("{:?}", cap), "seq": seq.iter().map(|v| format!("{:?}", v)).collect::<Vec<_>>(), "stream": hex(stream), "choices": choices_json(trace)});
     if let Some(p) = &run.panic {
         let key = if p.contains(HORIZON_MSG) { format!("{}/receiver/hang", mode) } else { format!("{}/receiver/panic/{}", mode, panic_site(p)) };
-        cx.violate(key, format!("{} (stream {} cap {:?} after {} results)", p, hex(stream), cap, run.outs.len()), replay);
+        cx.violate(key, format!("{} (stream {} cap {:?} after {} results)", p, hex(stream), cap, run.outs.len()), replay_fn());
         return;
     }
     let mut pos = 0;
@@ -423,7 +423,7 @@ fn judge_receiver_exact(cx: &mut Ctx, mode: &str, cap: CapSpec, seq: &[Value], s
         match run.outs.get(i) {
             Some((RecvOut::Msg { value, size, bytes, problems }, _)) => {
                 if value != v || *size != sizes[i] || bytes.as_slice() != &stream[pos..pos + sizes[i]] || !problems.is_empty() {
-                    cx.violate(format!("{}/receiver/wrong_message", mode), format!("message {} should be {:?} ({} bytes), got {:?} size {} bytes {} problems {:?}", i, v, sizes[i], value, size, hex(bytes), problems), replay.clone());
+                    cx.violate(format!("{}/receiver/wrong_message", mode), format!("message {} should be {:?} ({} bytes), got {:?} size {} bytes {} problems {:?}", i, v, sizes[i], value, size, hex(bytes), problems), replay_fn());
                     return;
                 }
             }
@@ -434,7 +434,7 @@ fn judge_receiver_exact(cx: &mut Ctx, mode: &str, cap: CapSpec, seq: &[Value], s
                     Some((RecvOut::Closed, _)) => "closed_early",
                     _ => "missing",
                 };
-                cx.violate(format!("{}/receiver/{}", mode, what), format!("message {} ({:?}) not delivered: {:?} (stream {} cap {:?})", i, v, other.map(|o| &o.0), hex(stream), cap), replay.clone());
+                cx.violate(format!("{}/receiver/{}", mode, what), format!("message {} ({:?}) not delivered: {:?} (stream {} cap {:?})", i, v, other.map(|o| &o.0), hex(stream), cap), replay_fn());
                 return;
             }
         }
@@ -442,7 +442,7 @@ fn judge_receiver_exact(cx: &mut Ctx, mode: &str, cap: CapSpec, seq: &[Value], s
     }
     match run.outs.get(seq.len()) {
         Some((RecvOut::Closed, _)) if run.outs.len() == seq.len() + 1 => {}
-        other => cx.violate(format!("{}/receiver/no_closed", mode), format!("after {} messages expected Closed, got {:?}", seq.len(), other.map(|o| &o.0)), replay),
+        other => cx.violate(format!("{}/receiver/no_closed", mode), format!("after {} messages expected Closed, got {:?}", seq.len(), other.map(|o| &o.0)), replay_fn()),
     }
 }
 
@@ -609,6 +609,7 @@ struct AsyncRun {
 
 fn run_async(s: &dyn IoShape, cap: CapSpec, seq: &[Value], pipe_cap: usize, spurious: usize, wf: &FaultCfg, rf: &FaultCfg) -> AsyncRun {
     let pipe = APipe::new(pipe_cap, spurious);
+    pipe.borrow_mut().call_horizon += 8 * seq.iter().map(|v| msg_size(s, v)).sum::<usize>();
     let sends: Rc<RefCell<Vec<(usize, SendOut, usize, usize)>>> = Rc::new(RefCell::new(vec![]));
     let recvs: Rc<RefCell<Vec<RecvOut>>> = Rc::new(RefCell::new(vec![]));
     let retained: Rc<RefCell<Vec<usize>>> = Rc::new(RefCell::new(vec![]));
@@ -701,19 +702,19 @@ fn judge_async(cx: &mut Ctx, cap: CapSpec, pipe_cap: usize, seq: &[Value], run: 
     let d = cx.d.clone();
     let blen = buf_len(cap, &d);
     let (stream, mask, sizes) = stream_of(&d, seq, blen);
-    let replay = json!({"engine": "io_explore", "policy": CHUNK_POLICY.with(|c| c.get()), "retain": retain_on(), "mode": "async", "shape": cx.s.id(), "cap": format!("{:?}", cap), "pipe_cap": pipe_cap, "seq": seq.iter().map(|v| format!("{:?}", v)).collect::<Vec<_>>(), "choices": choices_json(trace)});
+    let replay_fn = || json!({"engine": "io_explore", "policy": CHUNK_POLICY.with(|c| c.get()), "retain": retain_on(), "mode": "async", "shape": cx.s.id(), "cap": format!("{:?}", cap), "pipe_cap": pipe_cap, "seq": seq.iter().map(|v| format!("{:?}", v)).collect::<Vec<_>>(), "choices": choices_json(trace)});
     if let Some(p) = &run.panic {
-        cx.violate(format!("async/panic/{}", panic_site(p)), format!("panic: {} (seq {:?} cap {:?} pipe {})", p, seq, cap, pipe_cap), replay);
+        cx.violate(format!("async/panic/{}", panic_site(p)), format!("panic: {} (seq {:?} cap {:?} pipe {})", p, seq, cap, pipe_cap), replay_fn());
         return;
     }
     match &run.end {
         ExecEnd::AllDone => {}
         ExecEnd::Deadlock(t) => {
-            cx.violate("async/deadlock".into(), format!("tasks {:?} (0 = sender, 1 = receiver) are pending but nobody will wake them; {} polls; sends {:?} recvs {}", t, run.polls, run.sends.len(), run.recvs.len()), replay);
+            cx.violate("async/deadlock".into(), format!("tasks {:?} (0 = sender, 1 = receiver) are pending but nobody will wake them; {} polls; sends {:?} recvs {}", t, run.polls, run.sends.len(), run.recvs.len()), replay_fn());
             return;
         }
         ExecEnd::Horizon => {
-            cx.violate("async/no_completion".into(), format!("futures did not complete within {} polls although the pipe made progress", run.polls), replay);
+            cx.violate("async/no_completion".into(), format!("futures did not complete within {} polls although the pipe made progress", run.polls), replay_fn());
             return;
         }
     }
@@ -721,25 +722,25 @@ fn judge_async(cx: &mut Ctx, cap: CapSpec, pipe_cap: usize, seq: &[Value], run: 
     let mut expect_total = 0;
     for (k, (i, out, acc, fl)) in run.sends.iter().enumerate() {
         if *out != SendOut::Ok || *i != k {
-            cx.violate("async/send_failed".into(), format!("send {} returned {:?}", i, out), replay.clone());
+            cx.violate("async/send_failed".into(), format!("send {} returned {:?}", i, out), replay_fn());
             return;
         }
         expect_total += sizes[*i];
         if *acc != expect_total {
-            cx.violate("async/send_completed_early".into(), format!("send {} completed with {} bytes accepted by the pipe, {} expected", i, acc, expect_total), replay.clone());
+            cx.violate("async/send_completed_early".into(), format!("send {} completed with {} bytes accepted by the pipe, {} expected", i, acc, expect_total), replay_fn());
             return;
         }
         if *fl != *acc {
-            cx.violate("async/send_completed_unflushed".into(), format!("send {} completed but {} accepted bytes were not flushed", i, acc - fl), replay.clone());
+            cx.violate("async/send_completed_unflushed".into(), format!("send {} completed but {} accepted bytes were not flushed", i, acc - fl), replay_fn());
             return;
         }
     }
     if run.sends.len() != seq.len() {
-        cx.violate("async/send_missing".into(), format!("{} of {} sends completed", run.sends.len(), seq.len()), replay);
+        cx.violate("async/send_missing".into(), format!("{} of {} sends completed", run.sends.len(), seq.len()), replay_fn());
         return;
     }
     if !masked_eq(&run.written, &stream, &mask) {
-        cx.violate("async/sink_bytes".into(), format!("pipe received {} expected {}", hex(&run.written), hex(&stream)), replay);
+        cx.violate("async/sink_bytes".into(), format!("pipe received {} expected {}", hex(&run.written), hex(&stream)), replay_fn());
         return;
     }
     let mut pos = 0;
@@ -747,14 +748,14 @@ fn judge_async(cx: &mut Ctx, cap: CapSpec, pipe_cap: usize, seq: &[Value], run: 
         match run.recvs.get(i) {
             Some(RecvOut::Msg { value, size, bytes, problems }) if value == v && *size == sizes[i] && bytes.as_slice() == &run.written[pos..pos + sizes[i]] && problems.is_empty() => {}
             other => {
-                cx.violate("async/wrong_message".into(), format!("message {} should be {:?}, got {:?}", i, v, other), replay.clone());
+                cx.violate("async/wrong_message".into(), format!("message {} should be {:?}, got {:?}", i, v, other), replay_fn());
                 return;
             }
         }
         pos += sizes[i];
     }
     if !(run.recvs.len() == seq.len() + 1 && run.recvs[seq.len()] == RecvOut::Closed) {
-        cx.violate("async/no_closed".into(), format!("after {} messages expected exactly Closed, got {:?}", seq.len(), run.recvs.get(seq.len()..)), replay);
+        cx.violate("async/no_closed".into(), format!("after {} messages expected exactly Closed, got {:?}", seq.len(), run.recvs.get(seq.len()..)), replay_fn());
     }
 }
 
@@ -815,10 +816,10 @@ fn mode_async(cx: &mut Ctx) {
 // ============================================================================================
 
 fn judge_receiver_faulty(cx: &mut Ctx, mode: &str, cap: CapSpec, seq: &[Value], stream: &[u8], sizes: &[usize], outs: &[RecvOut], panic: &Option<String>, injected: &[(usize, String)], trace: &[(u16, u16)]) {
-    let replay = json!({"engine": "io_explore", "mode": mode, "side": "receiver", "shape": cx.s.id(), "cap": format!("{:?}", cap), "seq": seq.iter().map(|v| format!("{:?}", v)).collect::<Vec<_>>(), "stream": hex(stream), "choices": choices_json(trace)});
+    let replay_fn = || json!({"engine": "io_explore", "mode": mode, "side": "receiver", "shape": cx.s.id(), "cap": format!("{:?}", cap), "seq": seq.iter().map(|v| format!("{:?}", v)).collect::<Vec<_>>(), "stream": hex(stream), "choices": choices_json(trace)});
     if let Some(p) = panic {
         let key = if p.contains(HORIZON_MSG) { format!("{}/receiver/hang", mode) } else { format!("{}/receiver/panic/{}", mode, panic_site(p)) };
-        cx.violate(key, format!("{} (faults {:?})", p, injected), replay);
+        cx.violate(key, format!("{} (faults {:?})", p, injected), replay_fn());
         return;
     }
     // delivered messages must be a prefix of the sent sequence, each once, in order
@@ -830,7 +831,7 @@ fn judge_receiver_faulty(cx: &mut Ctx, mode: &str, cap: CapSpec, seq: &[Value], 
         match o {
             RecvOut::Msg { value, size, bytes, problems } => {
                 if i >= seq.len() || value != &seq[i] || *size != sizes[i] || bytes.as_slice() != &stream[pos..pos + sizes[i]] || !problems.is_empty() {
-                    cx.violate(format!("{}/receiver/lost_or_duplicated", mode), format!("result #{} is {:?} size {}, expected message {} {:?} (faults {:?})", i, value, size, i, seq.get(i), injected), replay.clone());
+                    cx.violate(format!("{}/receiver/lost_or_duplicated", mode), format!("result #{} is {:?} size {}, expected message {} {:?} (faults {:?})", i, value, size, i, seq.get(i), injected), replay_fn());
                     return;
                 }
                 pos += sizes[i];
@@ -839,7 +840,7 @@ fn judge_receiver_faulty(cx: &mut Ctx, mode: &str, cap: CapSpec, seq: &[Value], 
             RecvOut::Read(_) => read_errs += 1,
             RecvOut::Closed => closed = true,
             RecvOut::Parse(e) => {
-                cx.violate(format!("{}/receiver/parse_error", mode), format!("Parse({}) on a valid stream (faults {:?})", e, injected), replay.clone());
+                cx.violate(format!("{}/receiver/parse_error", mode), format!("Parse({}) on a valid stream (faults {:?})", e, injected), replay_fn());
                 return;
             }
         }
@@ -849,13 +850,13 @@ fn judge_receiver_faulty(cx: &mut Ctx, mode: &str, cap: CapSpec, seq: &[Value], 
     if !persistent && !eof {
         // only transient read errors: everything must arrive, then Closed
         if i != seq.len() || !closed {
-            cx.violate(format!("{}/receiver/lost_after_transient_error", mode), format!("{} of {} messages delivered, closed={} after transient faults {:?} ({} read errors reported)", i, seq.len(), closed, injected, read_errs), replay.clone());
+            cx.violate(format!("{}/receiver/lost_after_transient_error", mode), format!("{} of {} messages delivered, closed={} after transient faults {:?} ({} read errors reported)", i, seq.len(), closed, injected, read_errs), replay_fn());
         }
         if read_errs != injected.len() {
-            cx.violate(format!("{}/receiver/error_not_reported", mode), format!("{} faults injected {:?} but {} read errors reported", injected.len(), injected, read_errs), replay);
+            cx.violate(format!("{}/receiver/error_not_reported", mode), format!("{} faults injected {:?} but {} read errors reported", injected.len(), injected, read_errs), replay_fn());
         }
     } else if eof && !persistent && !closed && read_errs < GIVE_UP {
-        cx.violate(format!("{}/receiver/eof_not_closed", mode), format!("end of stream injected {:?} but recv never reported Closed: {:?}", injected, outs.last()), replay);
+        cx.violate(format!("{}/receiver/eof_not_closed", mode), format!("end of stream injected {:?} but recv never reported Closed: {:?}", injected, outs.last()), replay_fn());
     }
 }
 
@@ -923,24 +924,24 @@ fn mode_fault(cx: &mut Ctx) {
 fn judge_async_faulty(cx: &mut Ctx, cap: CapSpec, seq: &[Value], stream: &[u8], sizes: &[usize], run: &AsyncRun, trace: &[(u16, u16)], side: &str) {
     let d = cx.d.clone();
     let blen = buf_len(cap, &d);
-    let replay = json!({"engine": "io_explore", "mode": "fault", "side": side, "shape": cx.s.id(), "cap": format!("{:?}", cap), "seq": seq.iter().map(|v| format!("{:?}", v)).collect::<Vec<_>>(), "choices": choices_json(trace)});
+    let replay_fn = || json!({"engine": "io_explore", "mode": "fault", "side": side, "shape": cx.s.id(), "cap": format!("{:?}", cap), "seq": seq.iter().map(|v| format!("{:?}", v)).collect::<Vec<_>>(), "choices": choices_json(trace)});
     if let Some(p) = &run.panic {
         let errored = run.sends.iter().any(|s| s.1 != SendOut::Ok);
         if p.contains(HORIZON_MSG) {
-            cx.violate(format!("fault/{}/hang", side), format!("a future kept calling the failing pipe without ever completing (faults {:?})", run.injected), replay);
+            cx.violate(format!("fault/{}/hang", side), format!("a future kept calling the failing pipe without ever completing (faults {:?})", run.injected), replay_fn());
         } else if !(errored && p.contains("poisoned")) {
-            cx.violate(format!("fault/{}/panic/{}", side, panic_site(p)), format!("panic: {} (faults {:?})", p, run.injected), replay);
+            cx.violate(format!("fault/{}/panic/{}", side, panic_site(p)), format!("panic: {} (faults {:?})", p, run.injected), replay_fn());
         }
         return;
     }
     match &run.end {
         ExecEnd::AllDone => {}
         ExecEnd::Deadlock(t) => {
-            cx.violate(format!("fault/{}/deadlock", side), format!("tasks {:?} pending forever (faults {:?})", t, run.injected), replay);
+            cx.violate(format!("fault/{}/deadlock", side), format!("tasks {:?} pending forever (faults {:?})", t, run.injected), replay_fn());
             return;
         }
         ExecEnd::Horizon => {
-            cx.violate(format!("fault/{}/hang", side), format!("no completion within {} polls (faults {:?}): an error was retried forever", run.polls, run.injected), replay);
+            cx.violate(format!("fault/{}/hang", side), format!("no completion within {} polls (faults {:?}): an error was retried forever", run.polls, run.injected), replay_fn());
             return;
         }
     }
@@ -951,15 +952,15 @@ fn judge_async_faulty(cx: &mut Ctx, cap: CapSpec, seq: &[Value], stream: &[u8], 
         let img = encode(&d, &seq[*i], blen, 0).unwrap();
         let wrote = &run.written[prev.min(run.written.len())..(*acc).min(run.written.len())];
         if partial && !wrote.is_empty() {
-            cx.violate(format!("fault/{}/bytes_after_partial", side), format!("bytes reached the pipe after a partial message (faults {:?})", run.injected), replay.clone());
+            cx.violate(format!("fault/{}/bytes_after_partial", side), format!("bytes reached the pipe after a partial message (faults {:?})", run.injected), replay_fn());
             return;
         }
         if wrote.len() > img.extent || !masked_eq(wrote, &img.bytes[..wrote.len()], &img.mask[..wrote.len()]) {
-            cx.violate(format!("fault/{}/sink_bytes", side), format!("attempt for message {} wrote {}, image {}", i, hex(wrote), hex(&img.bytes[..img.extent])), replay.clone());
+            cx.violate(format!("fault/{}/sink_bytes", side), format!("attempt for message {} wrote {}, image {}", i, hex(wrote), hex(&img.bytes[..img.extent])), replay_fn());
             return;
         }
         if *out == SendOut::Ok && wrote.len() != img.extent {
-            cx.violate(format!("fault/{}/ok_but_incomplete", side), format!("send {} Ok with {} of {} bytes", i, wrote.len(), img.extent), replay.clone());
+            cx.violate(format!("fault/{}/ok_but_incomplete", side), format!("send {} Ok with {} of {} bytes", i, wrote.len(), img.extent), replay_fn());
             return;
         }
         if *out != SendOut::Ok && !wrote.is_empty() && wrote.len() < img.extent {
@@ -988,13 +989,13 @@ fn judge_async_faulty(cx: &mut Ctx, cap: CapSpec, seq: &[Value], stream: &[u8], 
     for o in &outs {
         if let RecvOut::Msg { value, .. } = o {
             if k >= wrote_whole.len() || value != &wrote_whole[k] {
-                cx.violate(format!("fault/{}/lost_or_duplicated", side), format!("received {:?} as message {}, the pipe carried {:?} (faults {:?})", value, k, wrote_whole, run.injected), replay.clone());
+                cx.violate(format!("fault/{}/lost_or_duplicated", side), format!("received {:?} as message {}, the pipe carried {:?} (faults {:?})", value, k, wrote_whole, run.injected), replay_fn());
                 return;
             }
             k += 1;
         }
         if let RecvOut::Parse(e) = o {
-            cx.violate(format!("fault/{}/parse_error", side), format!("Parse({}) although only whole messages and a truncated tail were sent (faults {:?})", e, run.injected), replay.clone());
+            cx.violate(format!("fault/{}/parse_error", side), format!("Parse({}) although only whole messages and a truncated tail were sent (faults {:?})", e, run.injected), replay_fn());
             return;
         }
     }
@@ -1003,7 +1004,7 @@ fn judge_async_faulty(cx: &mut Ctx, cap: CapSpec, seq: &[Value], stream: &[u8], 
     let persistent = run.injected.iter().any(|(_, s)| s.contains("forever"));
     let eof = run.injected.iter().any(|(_, s)| s.contains("Zero"));
     if reader_faults && !persistent && !eof && k != wrote_whole.len() {
-        cx.violate(format!("fault/{}/lost_after_transient_error", side), format!("{} of {} messages delivered after transient read faults {:?}", k, wrote_whole.len(), run.injected), replay);
+        cx.violate(format!("fault/{}/lost_after_transient_error", side), format!("{} of {} messages delivered after transient read faults {:?}", k, wrote_whole.len(), run.injected), replay_fn());
     }
 }
 
@@ -1124,19 +1125,19 @@ fn hostile_streams(d: &Desc, thorough: bool) -> Vec<(Vec<u8>, &'static str)> {
 fn judge_hostile(cx: &mut Ctx, variant: &str, cap: CapSpec, stream: &[u8], origin: &str, outs: &[RecvOut], panic: &Option<String>, end: Option<&ExecEnd>, trace: &[(u16, u16)]) {
     let d = cx.d.clone();
     let c = buf_len(cap, &d);
-    let replay = json!({"engine": "io_explore", "policy": CHUNK_POLICY.with(|c| c.get()), "mode": "hostile", "variant": variant, "shape": cx.s.id(), "cap": format!("{:?}", cap), "stream": hex(stream), "origin": origin, "choices": choices_json(trace)});
+    let replay_fn = || json!({"engine": "io_explore", "policy": CHUNK_POLICY.with(|c| c.get()), "mode": "hostile", "variant": variant, "shape": cx.s.id(), "cap": format!("{:?}", cap), "stream": hex(stream), "origin": origin, "choices": choices_json(trace)});
     if let Some(p) = panic {
         let key = if p.contains(HORIZON_MSG) { format!("hostile/{}/hang", variant) } else { format!("hostile/{}/panic/{}", variant, panic_site(p)) };
-        cx.violate(key, format!("{} on stream {} ({}) cap {:?} after {} results", p, hex(stream), origin, cap, outs.len()), replay);
+        cx.violate(key, format!("{} on stream {} ({}) cap {:?} after {} results", p, hex(stream), origin, cap, outs.len()), replay_fn());
         return;
     }
     match end {
         Some(ExecEnd::Deadlock(_)) => {
-            cx.violate(format!("hostile/{}/deadlock", variant), format!("recv future never woken on stream {}", hex(stream)), replay);
+            cx.violate(format!("hostile/{}/deadlock", variant), format!("recv future never woken on stream {}", hex(stream)), replay_fn());
             return;
         }
         Some(ExecEnd::Horizon) => {
-            cx.violate(format!("hostile/{}/spin", variant), format!("recv did not terminate on stream {}", hex(stream)), replay);
+            cx.violate(format!("hostile/{}/spin", variant), format!("recv did not terminate on stream {}", hex(stream)), replay_fn());
             return;
         }
         _ => {}
@@ -1147,7 +1148,7 @@ fn judge_hostile(cx: &mut Ctx, variant: &str, cap: CapSpec, stream: &[u8], origi
         let ok = match o {
             RecvOut::Msg { value, size, bytes, problems } => {
                 if !problems.is_empty() || pos + *size > stream.len() || bytes.as_slice() != &stream[pos..pos + *size] {
-                    cx.violate(format!("hostile/{}/bad_message", variant), format!("result #{} on stream {}: message {:?} size {} bytes {} problems {:?} does not lie inside the received bytes at {}", n, hex(stream), value, size, hex(bytes), problems, pos), replay.clone());
+                    cx.violate(format!("hostile/{}/bad_message", variant), format!("result #{} on stream {}: message {:?} size {} bytes {} problems {:?} does not lie inside the received bytes at {}", n, hex(stream), value, size, hex(bytes), problems, pos), replay_fn());
                     return;
                 }
                 let good = exp.iter().any(|e| matches!(e, Verdict::Msg(v, s) if v == value && s == size));
@@ -1166,7 +1167,7 @@ fn judge_hostile(cx: &mut Ctx, variant: &str, cap: CapSpec, stream: &[u8], origi
                 RecvOut::Read(_) => "read_error_instead",
             };
             let wanted = if exp.iter().any(|e| matches!(e, Verdict::Parse)) { "parse" } else if exp.iter().any(|e| matches!(e, Verdict::Msg(..))) { "message" } else { "closed" };
-            cx.violate(format!("hostile/{}/{}/wanted_{}", variant, what, wanted), format!("result #{} on stream {} ({}) at position {} cap {:?}: got {:?}, reference expects one of {:?}", n, hex(stream), origin, pos, cap, o, exp), replay.clone());
+            cx.violate(format!("hostile/{}/{}/wanted_{}", variant, what, wanted), format!("result #{} on stream {} ({}) at position {} cap {:?}: got {:?}, reference expects one of {:?}", n, hex(stream), origin, pos, cap, o, exp), replay_fn());
             return;
         }
         if !matches!(o, RecvOut::Msg { .. }) {
@@ -1174,7 +1175,7 @@ fn judge_hostile(cx: &mut Ctx, variant: &str, cap: CapSpec, stream: &[u8], origi
         }
     }
     if outs.is_empty() {
-        cx.violate(format!("hostile/{}/no_result", variant), "recv produced nothing".into(), replay);
+        cx.violate(format!("hostile/{}/no_result", variant), "recv produced nothing".into(), replay_fn());
     }
 }
 
@@ -1183,6 +1184,7 @@ fn run_receiver_async_only(s: &dyn IoShape, cap: CapSpec, stream: &[u8]) -> (Vec
     let pipe = APipe::new(stream.len().max(1), 1);
     {
         let mut p = pipe.borrow_mut();
+        p.call_horizon += 4 * stream.len();
         p.buf.extend(stream.iter());
         p.writer_closed = true;
     }
@@ -1288,7 +1290,7 @@ const LONG_POLICIES: [usize; 8] = [0, 1, 7, 100, 255, 256, 257, 3];
 /// deviations are only affordable where an execution has few choice points
 fn long_bound(policy: usize, stream_len: usize) -> usize {
     let calls = if policy == 0 { 8 } else { stream_len / policy + 2 };
-    if calls <= 12 {
+    if calls <= 12 && stream_len <= 1400 {
         1
     } else {
         0
@@ -1321,25 +1323,29 @@ fn mode_long_blocking(cx: &mut Ctx) {
                 }
                 let dev = long_bound(policy, stream.len());
                 let s = cx.s;
-                let mut results: Vec<(Vec<(u16, u16)>, SendRun)> = vec![];
-                let st = with_policy(policy, || explore(Some(dev), max_execs, || run_sender_blocking(s, cap, &seq, Kind::Iter, &FaultCfg::off(), s_max), |t, r| results.push((t.to_vec(), r))));
+                // judged as they come (nothing is collected: a run holds kilobytes)
                 let mut sink = None;
-                for (t, r) in &results {
-                    with_policy(policy, || judge_sender(cx, "blocking", cap, &seq, r, t, false));
-                    if t.iter().all(|(c, _)| *c == 0) {
-                        sink = Some(r.sink.clone());
-                    }
-                }
+                let mut n_runs = 0u64;
+                let st = with_policy(policy, || {
+                    explore(Some(dev), max_execs, || run_sender_blocking(s, cap, &seq, Kind::Iter, &FaultCfg::off(), s_max), |t, r| {
+                        judge_sender(cx, "blocking", cap, &seq, &r, t, false);
+                        if t.iter().all(|(c, _)| *c == 0) {
+                            sink = Some(r.sink.clone());
+                        }
+                        n_runs += 1;
+                    })
+                });
                 account(cx, &st, Some(dev), stream.len(), "long_sender");
                 let real = sink.filter(|x| x.len() == stream.len()).unwrap_or(stream.clone());
-                let mut rres: Vec<(Vec<(u16, u16)>, RecvRun)> = vec![];
-                let st = with_policy(policy, || explore(Some(dev), max_execs, || run_receiver_blocking(s, cap, &real, &FaultCfg::off(), true), |t, r| rres.push((t.to_vec(), r))));
-                for (t, r) in &rres {
-                    with_policy(policy, || judge_receiver_exact(cx, "blocking", cap, &seq, &real, &sizes, r, t));
-                }
+                let st = with_policy(policy, || {
+                    explore(Some(dev), max_execs, || run_receiver_blocking(s, cap, &real, &FaultCfg::off(), true), |t, r| {
+                        judge_receiver_exact(cx, "blocking", cap, &seq, &real, &sizes, &r, t);
+                        n_runs += 1;
+                    })
+                });
                 account(cx, &st, Some(dev), stream.len(), "long_receiver");
                 cx.acc.distinct.insert(format!("{}:long:{}:{}:{:?}", cx.s.id(), label, policy, cap));
-                cx.acc.count("long_runs", (results.len() + rres.len()) as u64);
+                cx.acc.count("long_runs", n_runs);
             }
         }
     }
@@ -1364,14 +1370,16 @@ fn mode_long_async(cx: &mut Ctx) {
                 // the schedule of two tasks multiplies the choice points: deviations only for the coarse runs
                 let dev = if (policy == 0 || policy >= 100) && pc >= 100 && stream.len() <= 1400 { 1 } else { 0 };
                 let s = cx.s;
-                let mut res: Vec<(Vec<(u16, u16)>, AsyncRun)> = vec![];
-                let st = with_policy(policy, || explore(Some(dev), max_execs, || run_async(s, cap, &seq, pc, 0, &FaultCfg::off(), &FaultCfg::off()), |t, r| res.push((t.to_vec(), r))));
-                for (t, r) in &res {
-                    with_policy(policy, || judge_async(cx, cap, pc, &seq, r, t));
-                }
+                let mut n_runs = 0u64;
+                let st = with_policy(policy, || {
+                    explore(Some(dev), max_execs, || run_async(s, cap, &seq, pc, 0, &FaultCfg::off(), &FaultCfg::off()), |t, r| {
+                        judge_async(cx, cap, pc, &seq, &r, t);
+                        n_runs += 1;
+                    })
+                });
                 account(cx, &st, Some(dev), stream.len(), "long_async");
                 cx.acc.distinct.insert(format!("{}:long:{}:{}:{}", cx.s.id(), label, policy, pc));
-                cx.acc.count("long_runs", res.len() as u64);
+                cx.acc.count("long_runs", n_runs);
             }
         }
     }
